@@ -76,7 +76,18 @@ def generate(rng, repo_root, opts=None):
     elif kind == "norun":
         scn["reads"] = [rng.choice(["rf", "rfd", "interp", "rf_time"]) for _ in range(rng.choice([1, 2, 3]))]
     elif kind == "interp":
-        scn["mode"] = rng.choice(["flux", "density", "none"])
+        # 0-4 recovery calls of random modes before the interpolator is built: it must read back the last one
+        scn["modes"] = [rng.choice(["flux", "density"]) for _ in range(rng.choice([0, 1, 1, 2, 3, 4]))]
+        tt = g["t"]
+        u = rng.random()
+        if u < 0.25:
+            scn["grid_shift"] = -(tt[-1] + rng.choice([1, 3, 1000])) // Q * Q        # all times negative
+        elif u < 0.45:
+            scn["grid_shift"] = -(0.5 * (tt[0] + tt[-1])) // Q * Q                  # straddles zero
+        elif u < 0.55:
+            scn["grid_shift"] = float(rng.choice([1, 1000, 2 ** 12]))
+        else:
+            scn["grid_shift"] = 0.0
         if cls == "SinglePhaseReservoir" and rng.random() < 0.3:
             scn["sched"] = world.draw_schedule(rng, fs, obj["pf"], n)
     return scn
@@ -214,6 +225,27 @@ def execute(ns, scn):
                 if not good:
                     out.violate("1-shift", "recovery" + ("-density" if dens else ""), {"rel_diff": d, "shift": c, "cls": cls})
                     return out
+        # interpolators built on the two objects agree at correspondingly shifted query times
+        q = np.concatenate([t, 0.5 * (t[1:] + t[:-1]), [t[0] - Q, t[0] - 1.0, t[-1] + Q, t[-1] + 1.0]])
+        q2 = q + c
+        if np.array_equal(q2 - c, q):
+            a1, f1, x1 = _try(lambda: r1.recovery_factor_interpolator())
+            a2, f2, x2 = _try(lambda: r2.recovery_factor_interpolator())
+            if a1 != a2:
+                out.violate("1-shift", "interpolator-one-raises", {"unshifted": x1, "shifted": x2, "shift": c})
+                return out
+            if a1:
+                b1, v1, y1 = _try(lambda: np.asarray(f1(q), dtype=float))
+                b2, v2, y2 = _try(lambda: np.asarray(f2(q2), dtype=float))
+                out.log.append(("interp", b1, b2, _d(v1), _d(v2)))
+                if b1 != b2:
+                    out.violate("1-shift", "interpolator-eval-one-raises", {"unshifted": y1, "shifted": y2, "shift": c})
+                    return out
+                if b1:
+                    good, d = _close(v1, v2, 1e-9)
+                    if not good:
+                        out.violate("1-shift", "interpolator", {"rel_diff": d, "shift": c, "cls": cls})
+                        return out
         # the stored time axis must be the one given (shifted), so that interpolation is in the caller's time
         if not np.array_equal(np.asarray(r2.time, dtype=float), t2):
             out.probe("stored_time_not_callers_axis")
@@ -306,6 +338,7 @@ def execute(ns, scn):
 
     if kind == "interp":
         res = _fresh(ns, scn)
+        t = t + float(scn.get("grid_shift", 0.0))
         if not _apply_pre(out, res, scn, t):
             return out
         ok, _, e = _sim(out, res, t.copy(), sched)
@@ -313,13 +346,14 @@ def execute(ns, scn):
         if not ok:
             out.probe("interp_world_rejected")
             return out
-        mode = scn["mode"]
-        if mode == "density" and not has_density:
-            mode = "flux"
+        modes = [m for m in scn.get("modes", [scn.get("mode", "flux")]) if m != "none"]
+        if not has_density:
+            modes = ["flux" for _ in modes]
+        mode = "+".join(modes) or "none"
         r = None
-        if mode != "none":
-            okr, r, er = _try(lambda: res.recovery_factor(density=(mode == "density")))
-            out.log.append(("rf", mode, okr, er, _d(r)))
+        for m in modes:
+            okr, r, er = _try(lambda m=m: res.recovery_factor(density=(m == "density")))
+            out.log.append(("rf", m, okr, er, _d(r)))
             if not okr:
                 out.probe("interp_rf_raised")
                 return out
@@ -405,6 +439,7 @@ def aggregate(agg, scn, res):
 
 
 def merge(a, b):
+    a["timeouts"] = a.get("timeouts", 0) + b.get("timeouts", 0)
     for key in ("runs", "steps", "sims", "violating_runs", "pre"):
         a[key] += b[key]
     a["sim_time"] += b["sim_time"]
@@ -425,7 +460,7 @@ def sample_repr(scn, res=None):
          "fluid": f'{scn["fluids"][0]["family"]}@p_i={scn["fluids"][0]["p_i"]}',
          "grid": f'{scn["grid"]["family"]} n={len(t)} t0={t[0]:.6g} t_end={t[-1]:.6g}',
          "pre_rejected": [p["how"] for p in scn.get("pre_rejected", [])]}
-    for k in ("shift", "bad_len", "completed_before", "reads", "mode"):
+    for k in ("shift", "bad_len", "completed_before", "reads", "modes", "grid_shift"):
         if k in scn:
             d[k] = scn[k]
     if res is not None:
@@ -479,6 +514,16 @@ def shrink_candidates(scn):
             c = copy.deepcopy(scn)
             c["reads"] = [scn["reads"][i]]
             yield c
+    if scn["kind"] == "interp":
+        ms = scn.get("modes", [])
+        for i in range(len(ms)):
+            c = copy.deepcopy(scn)
+            c["modes"] = ms[:i] + ms[i + 1:]
+            yield c
+        if scn.get("grid_shift"):
+            c = copy.deepcopy(scn)
+            c["grid_shift"] = 0.0
+            yield c
     if scn["kind"] == "shift" and abs(scn["shift"]) != 1.0:
         c = copy.deepcopy(scn)
         c["shift"] = 1.0
@@ -527,6 +572,7 @@ def evidence(out, tier, seed, wall, wall_batch, cross, known_hits, violations, w
             "batch_digest": engine.batch_digest(out["digests"]),
             "known_finding_runs": known_hits,
             "violating_runs": agg["violating_runs"],
+            "scenarios_timed_out_inconclusive": agg.get("timeouts", 0),
             "warnings": warn,
             "real_vs_stub": {"real": "all of bluebonnet and scipy", "stub": "none (faults here are natural rejected calls)",
                              "model": "absolute oracles per clause; pairs of real runs for clauses 1-2"},
